@@ -61,10 +61,14 @@ def l2(rep, pa, tier, rng):
         raise MachineryError("Check.tla emitted no case")
     conts = {}
     n = 0
-    for p in cases:
-      for variant in ("twins", "distinct"):
+    # the cases of one continuum are presented one after the other against the SAME continuum object (valid and invalid ones
+    # interleaved as TLC found them): a verdict must not depend on what was checked against that continuum before
+    order = sorted(range(len(cases)), key=lambda k: (tuple(cases[k]["sizes"]), k))
+    for variant in ("twins", "distinct", "far"):
+      for p in (cases[k] for k in order):
         # "twins": every annotator has the same units (equal segment and label) - equal units must still be told apart by
-        # their annotator; "distinct": labels differ across annotators
+        # their annotator; "distinct": labels differ across annotators; "far": one label, units 20 ms apart ten hours into
+        # a recording (they differ from the 7th significant digit on)
         sizes = tuple(p["sizes"])
         if (sizes, variant) not in conts:
             c = pa.Continuum()
@@ -72,8 +76,9 @@ def l2(rep, pa, tier, rng):
             for a, k in enumerate(sizes):
                 c.add_annotator(anns[a])
                 for i in range(k):
-                    lab = ["x", None, "y"][i % 3] if variant == "twins" else f"l{a}{i}"
-                    c.add(anns[a], Segment(float(3 * i), float(3 * i + 2)), lab)
+                    lab = ["x", None, "y"][i % 3] if variant == "twins" else (f"l{a}{i}" if variant == "distinct" else "x")
+                    seg = Segment(float(3 * i), float(3 * i + 2)) if variant != "far" else Segment(36000.0 + 0.02 * i, 36000.01 + 0.02 * i)
+                    c.add(anns[a], seg, lab)
             conts[(sizes, variant)] = (c, anns, ar.units_by_annotator(c))
         c, anns, units = conts[(sizes, variant)]
         tuples = p["al"]
